@@ -50,6 +50,15 @@ def mk_struct(P, name, **fields):
     return Struct(name, [fields[f] for f in order])
 
 
+def mk_interp(P, **fields):
+    """an Interpreter value as its constructors build it: bookkeeping counters (fields other than the four given) start at zero"""
+    from .values import Int
+    for extra_f in P.structs.get("Interpreter", []):
+        if extra_f not in fields:
+            fields[extra_f] = Int(0, "usize")
+    return mk_struct(P, "Interpreter", **fields)
+
+
 def mk_script(seq):
     return Struct("Script", [Bytes(seq)])
 
